@@ -695,6 +695,13 @@ def run_shard(ctx):
     evaluations = 0
     ncases = 0
     truncated = False
+    PI = None
+    if inject is None and ctx.get('pooled', True):
+        # shared operand objects: every third program is also built from one shared instance per distinct class-valued
+        # sub-expression (objects that have already been operands of other unions / subtractions) and judged likewise
+        from .hist import PoolClsInterp
+        PI = PoolClsInterp(seed)
+        PI.scan_sample = False
     for idx, prog in enumerate(progs):
         if time.time() - t0 > budget:
             truncated = True
@@ -706,6 +713,13 @@ def run_shard(ctx):
             inject_order(pinj)
         status, events, text, m = I.run(prog)
         evaluations += len(events)
+        if PI is not None and idx % 3 == 0:
+            st2, ev2, _, _ = PI.run(prog)
+            evaluations += len(ev2)
+            for ev in ev2:
+                if ev['verdict'] == 'viol':
+                    ev['detail'] = (ev.get('detail') or '') + ' [operands are shared objects already used in other expressions]'
+                    events = events + [ev]
         for ev in events:
             keys.add(key_of(ev))
         # semantic fingerprint of the outcome, compared across hash seeds / orders by the coordinator
@@ -730,7 +744,7 @@ def run_shard(ctx):
                 nviol[sig] += 1
                 if nviol[sig] <= 3 and len(viols) < 60:
                     viols.append({'property': check, 'sig': sig, 'symptom': ev['symptom'], 'detail': ev['detail'], 'event': ev,
-                                  'case': {'kind': 'cls', 'prog': prog, 'inject': pinj}, 'show': show(prog),
+                                  'case': {'kind': 'cls', 'prog': prog, 'inject': pinj, 'history': 'shared objects' in (ev.get('detail') or '')}, 'show': show(prog),
                                   'injected': inject is not None})
             else:
                 other['|'.join(sorted(P)) + ':' + (ev['symptom'] or '').split(':')[0]] += 1
